@@ -148,8 +148,9 @@ package mpx
 //@   modifies ghost.errMade at 0
 //@   ensures[C11] (result.Code == "ok") <==> ghost(flagSet, c.handshaked) == 1
 //@   assert[C11] after req: line == "SpecMPX/1\n"
-//@   assert[C11] after comps: ok
-//@   loop 1 invariant 0 <= i
+//   ... and `ok` only because an offered version EQUAL to 1.0 (10) was read from the request
+//@   assert[C11] after comps: ok && (exists k :: 0 <= k && ghost(listAt, viewId(viewId(obj(versions.list.bytes), off(versions.list.bytes), len(versions.list.bytes)), k, 0)) == 10)
+//@   loop 1 invariant 0 <= i && !ok
 //@   loop 2 invariant 0 <= i && ok
 
 //@ func (*conn).handshakeAsClient
@@ -276,8 +277,10 @@ package mpx
 //@ func (ValueList).Len
 //@   trusted
 //@   ensures result >= 0
+//   Get(i) is a function of the list's bytes and the index (assumed; the decoders under it are C02/C10)
 //@ func (ValueList).Get
 //@   trusted
+//@   ensures result == ghost(listAt, viewId(viewId(obj(l.list.bytes), off(l.list.bytes), len(l.list.bytes)), i, 0))
 //@ func (MessageList).Len
 //@   trusted
 //@   ensures result >= 0
